@@ -313,3 +313,28 @@ example : Lerax.Rescale.backward (-2 : ℚ) 2 (some (-1)) (some 1) 1 = 2 := by
   norm_num [Lerax.Rescale.backward, Lerax.Rescale.intercept, Lerax.Rescale.gradient]
 
 end Lerax.C13
+
+/-! ## The defect repaired by /repo af4a27f (integer new bounds), stated on a model of the pre-repair arithmetic -/
+namespace Lerax.C13
+/-- pre-repair `rescale_box` when the new bounds are given as integers (`RescaleAction(env, 0, 1)`):
+    `jnp.ones_like(min)` / `jnp.zeros_like(min)` are integer arrays, so gradient and intercept were truncated
+    toward zero when stored (`.at[...].set` casts to the array's dtype) -/
+def legacyIntGradient (lo hi mn mx : Int) : Int := Int.tdiv (mx - mn) (hi - lo)
+def legacyIntForward (lo hi mn mx x : Int) : Int :=
+  legacyIntGradient lo hi mn mx * x + (mn - lo * legacyIntGradient lo hi mn mx)
+
+/-- whenever the new range is narrower than the original one (the normalisation use case) the legacy
+    gradient was 0 and the forward map constant — the original bounds were not mapped onto the new ones,
+    and `backward` divided by zero (the nan / inf actions observed) -/
+theorem legacy_int_rescale_constant (lo hi mn mx x : Int) (h0 : 0 ≤ mx - mn) (h1 : mx - mn < hi - lo) :
+    legacyIntGradient lo hi mn mx = 0 ∧ legacyIntForward lo hi mn mx x = mn := by
+  have hg : legacyIntGradient lo hi mn mx = 0 := by
+    unfold legacyIntGradient
+    exact Int.tdiv_eq_zero_of_lt h0 h1
+  refine ⟨hg, ?_⟩
+  unfold legacyIntForward
+  rw [hg]; simp
+
+/-- concrete witness: Pendulum's torque box [-2, 2] rescaled to [0, 1] sent the upper bound 2 to 0, not 1 -/
+theorem legacy_int_rescale_misses_upper_bound : legacyIntForward (-2) 2 0 1 2 ≠ 1 := by decide
+end Lerax.C13
